@@ -5,6 +5,7 @@ import (
 	"go/ast"
 	"go/token"
 	"go/types"
+	"sort"
 	"strings"
 
 	"golang.org/x/tools/go/packages"
@@ -329,3 +330,177 @@ func init() {
 }
 
 var _ = token.NoPos
+
+// ---- CTORSIB: sibling constructors of one type
+
+// Two constructors of the same type (NewPRNG / NewKeyedPRNG) build objects that the same methods then use. A field
+// that an exported method of the type reads, that one constructor assigns and another leaves at its zero value, makes
+// that method behave differently depending on how the object was built (Key() returns nothing for a keyed generator).
+// Reported per (type, field); constructors that delegate to another constructor inherit its assignments.
+func scanCtorSib(c *core.Ctx) []ob {
+	var out []ob
+	type ctorInfo struct {
+		pk     *packages.Package
+		fd     *ast.FuncDecl
+		fields map[string]bool
+		deleg  []*types.Func
+	}
+	byType := map[*types.TypeName][]*ctorInfo{}
+	ctorOf := map[*types.Func]*ctorInfo{}
+	c.FuncDecls(func(pk *packages.Package, file *ast.File, fd *ast.FuncDecl) {
+		if fd.Recv != nil || !(strings.HasPrefix(fd.Name.Name, "New") || strings.HasPrefix(fd.Name.Name, "new")) || fd.Body == nil || fileIsTestSupport(c.Program, fd.Pos()) || inExamples(pk) {
+			return
+		}
+		info := pk.TypesInfo
+		fn, _ := info.Defs[fd.Name].(*types.Func)
+		if fn == nil {
+			return
+		}
+		sig := fn.Type().(*types.Signature)
+		if sig.Results().Len() == 0 {
+			return
+		}
+		named := namedOf(sig.Results().At(0).Type())
+		if named == nil || structOf(named) == nil || named.Obj().Pkg() != pk.Types {
+			return
+		}
+		ci := &ctorInfo{pk: pk, fd: fd, fields: map[string]bool{}}
+		whole := false
+		ast.Inspect(fd.Body, func(x ast.Node) bool {
+			switch v := x.(type) {
+			case *ast.CompositeLit:
+				if namedOf(info.TypeOf(v)) == named {
+					for i, el := range v.Elts {
+						if kv, ok := el.(*ast.KeyValueExpr); ok {
+							if id, ok := kv.Key.(*ast.Ident); ok {
+								ci.fields[id.Name] = true
+							}
+						} else if st := structOf(named); st != nil && i < st.NumFields() {
+							ci.fields[st.Field(i).Name()] = true
+						}
+					}
+				}
+			case *ast.AssignStmt:
+				for _, l := range v.Lhs {
+					if sel, ok := unparen(l).(*ast.SelectorExpr); ok {
+						if t := info.TypeOf(sel.X); t != nil && namedOf(t) == named {
+							ci.fields[sel.Sel.Name] = true
+						}
+					}
+					if t := info.TypeOf(l); t != nil && namedOf(t) == named {
+						if _, isIdent := unparen(l).(*ast.Ident); !isIdent {
+							whole = true
+						}
+					}
+				}
+			case *ast.CallExpr:
+				if g := calleeFunc(info, v); g != nil && strings.HasPrefix(g.Name(), "New") || g != nil && strings.HasPrefix(g.Name(), "new") {
+					ci.deleg = append(ci.deleg, funcOrigin(g))
+				}
+			}
+			return true
+		})
+		if whole {
+			return
+		}
+		byType[named.Obj()] = append(byType[named.Obj()], ci)
+		ctorOf[fn] = ci
+	})
+	// fields read by exported methods
+	readBy := map[*types.TypeName]map[string]string{}
+	c.FuncDecls(func(pk *packages.Package, file *ast.File, fd *ast.FuncDecl) {
+		if fd.Recv == nil || !fd.Name.IsExported() || fd.Body == nil {
+			return
+		}
+		info := pk.TypesInfo
+		named, _ := core.RecvNamed(info, fd)
+		recv := recvObj(info, fd)
+		if named == nil || recv == nil {
+			return
+		}
+		ast.Inspect(fd.Body, func(x ast.Node) bool {
+			if sel, ok := x.(*ast.SelectorExpr); ok {
+				if id, ok := unparen(sel.X).(*ast.Ident); ok && info.Uses[id] == recv {
+					if s := info.Selections[sel]; s != nil && s.Kind() == types.FieldVal {
+						tn := named.Origin().Obj()
+						if readBy[tn] == nil {
+							readBy[tn] = map[string]string{}
+						}
+						if _, ok := readBy[tn][sel.Sel.Name]; !ok {
+							readBy[tn][sel.Sel.Name] = core.FuncKey(pk, fd)
+						}
+					}
+				}
+			}
+			return true
+		})
+	})
+	n := 0
+	var tns []*types.TypeName
+	for tn := range byType {
+		tns = append(tns, tn)
+	}
+	sort.Slice(tns, func(i, j int) bool { return tns[i].Pos() < tns[j].Pos() })
+	for _, tn := range tns {
+		cis := byType[tn]
+		if len(cis) < 2 {
+			continue
+		}
+		// delegation closure
+		for iter := 0; iter < 4; iter++ {
+			for _, ci := range cis {
+				for _, g := range ci.deleg {
+					if d := ctorOf[g]; d != nil && d != ci {
+						for f := range d.fields {
+							ci.fields[f] = true
+						}
+					}
+				}
+			}
+		}
+		union := map[string]bool{}
+		for _, ci := range cis {
+			for f := range ci.fields {
+				union[f] = true
+			}
+		}
+		for _, f := range sortedKeys(union) {
+			reader, isRead := readBy[tn][f]
+			// exported fields are part of the API: a constructor may leave them to the caller
+			if !isRead || ast.IsExported(f) {
+				continue
+			}
+			var missing []string
+			for _, ci := range cis {
+				if !ci.fields[f] && ci.fd.Name.IsExported() {
+					missing = append(missing, ci.fd.Name.Name)
+				}
+			}
+			n++
+			key := fmt.Sprintf("CTORSIB:%s.%s.%s", core.ShortPkg(cis[0].pk.PkgPath), tn.Name(), f)
+			if ex := ctorSibExempt[key]; ex != "" {
+				out = append(out, okOb("CTORSIB", key, c.Rel(tn.Pos()), "exempt: "+ex, false))
+			} else if len(missing) == 0 {
+				out = append(out, okOb("CTORSIB", key, c.Rel(tn.Pos()), "assigned by every constructor", true))
+			} else {
+				sort.Strings(missing)
+				out = append(out, violOb("CTORSIB", key, c.Rel(tn.Pos()), fmt.Sprintf("field %s.%s is read by %s and assigned by some constructors of %s but not by %s: objects built that way answer from a zero value", tn.Name(), f, reader, tn.Name(), strings.Join(missing, ", "))))
+			}
+		}
+	}
+	c.Stats["ctorsib_fields"] = n
+	return out
+}
+
+// ctorSibExempt: obligation key -> reason.
+var ctorSibExempt = map[string]string{}
+
+func init() {
+	core.Register(&core.Rule{Name: "CTORSIB", Props: []string{"C17", "C10", "C19"},
+		Doc: "a field read by an exported method of a type and assigned by one of its New* constructors is assigned by all of them (directly or through a constructor they call)",
+		Run: func(c *core.Ctx) []ob {
+			out := scanCtorSib(c)
+			out = append(out, core.Floor("CTORSIB", nil, "fields of multi-constructor types", c.Stats["ctorsib_fields"], 3)...)
+			return out
+		}})
+}
